@@ -18,7 +18,7 @@ import (
 //
 //	tparam K V A      K ::= int | str | type      the parameter's type: Integer, String or Type
 //	                  V ::= - | u | (i N) | (s xHEX) | int | str | bool | any     the value given for it (a type name when K = type;
-//	                                                - = not given, u = undef given explicitly: known finding C17-tparam-explicit-undef)
+//	                                                - = not given, u = undef given explicitly: binds nothing since the fix de95e71 of C17-tparam-explicit-undef)
 //	                  A ::= integer                the value of the required attribute `a`
 //
 //	type T = Object[{type_parameters => {p => <K>}, attributes => {a => Integer, p => {type => Optional[<K>], value => undef}}}]
@@ -162,11 +162,9 @@ func execTParam(c px.Context, args []sx.Sexp) core.Result {
 		if args[0].Atom == "str" && strings.Contains(fails[0].detail, "MATCH_NOT_") {
 			// known finding C17-tparam-string-match
 			res.Pred = "FAIL tparam-string-match [" + fails[0].class + "] " + fails[0].detail
-		} else if pv == px.Undef && fails[0].class != "fault" {
-			// known finding C17-tparam-explicit-undef: the parameter's attribute given its default (undef) BY NAME binds the type
-			// parameter to undef (the instance gets the type T[p => undef]); given positionally it does not
-			res.Pred = "FAIL tparam-explicit-undef [" + fails[0].class + "] " + fails[0].detail
 		}
+		// (the finding C17-tparam-explicit-undef — the parameter's attribute given undef BY NAME bound the type parameter to
+		// undef — is fixed by de95e71: V = u is judged like every other value)
 	}
 	return res
 }
